@@ -315,3 +315,38 @@ M("C02", "M16-truncated-latency", (TM, "                sec_since_timestep = (ev
 M("C02", "M17-reward-before-events-state-after", (EN, "        self._process_nonlatent_events()\n        reward = self._reward.calculate(self)\n", "        reward = self._reward.calculate(self)\n        self._process_nonlatent_events()\n"), "S4")
 E("C02", "E1-searchsorted", [(TM, "                index = bisect.bisect_left(self.timesteps, event.time)", "                index = np.searchsorted(self.timesteps, event.time)")])
 E("C02", "E2-scale-local", (EN, "            scale = np.log(pd.DataFrame(Y).loc[:transformer_end]).diff().std().mean().item()", "            Y_fit = pd.DataFrame(Y).loc[:transformer_end]\n            scale = np.log(Y_fit).diff().std().mean().item()"))
+
+# ------------------------------------------------------------------ C08
+R("C08", "R-F5-discrete-null-action", "F5-C08.diff", "S3.null-action-member")
+M("C08", "M1-lifo", (EN, "        self._queue_actions.appendleft(action)", "        self._queue_actions.append(action)"), "S1.fifo-pair")
+M("C08", "M2-maxlen-d", (EN, "            maxlen=self._steps_delay + 1,", "            maxlen=self._steps_delay,"), "S1.capacity-is-d-plus-1")
+M("C08", "M3-prefill-d-plus-1", (EN, "[self.action_space.null_action() for _ in range(self._steps_delay)]", "[self.action_space.null_action() for _ in range(self._steps_delay + 1)]"), "S1.prefill-is-d")
+M("C08", "M4-pop-before-insert", (EN, "        self._queue_actions.appendleft(action)\n        action = self._queue_actions.pop()", "        due = self._queue_actions.pop() if self._queue_actions else action\n        self._queue_actions.appendleft(action)\n        action = due"), "S1")
+M("C08", "M5-queue-kept-across-reset", (EN, "        self._queue_actions = deque(\n            [self.action_space.null_action() for _ in range(self._steps_delay)],\n            maxlen=self._steps_delay + 1,\n        )", "        if not self._queue_actions:\n            self._queue_actions = deque(\n                [self.action_space.null_action() for _ in range(self._steps_delay)],\n                maxlen=self._steps_delay + 1,\n            )"), "S1.queue-rebuilt-at-reset")
+M("C08", "M6-latent-after-rebalance", (EN, "        self._process_latent_events()\n        rebalancing = self.action_space.make_rebalancing_request(action, self.now(), self.broker)\n        try:\n            self.broker.rebalance(rebalancing)\n        except EndOfEpisodeError:\n            info = dict()\n            self._done = True\n        else:\n            info = {\"_rebalancing\": rebalancing}\n", "        rebalancing = self.action_space.make_rebalancing_request(action, self.now(), self.broker)\n        try:\n            self.broker.rebalance(rebalancing)\n        except EndOfEpisodeError:\n            info = dict()\n            self._done = True\n        else:\n            info = {\"_rebalancing\": rebalancing}\n        self._process_latent_events()\n"), "S4")
+M("C08", "M7-latency-strict", (TM, "                if sec_since_timestep <= latency:", "                if sec_since_timestep < latency:"), "S5.latent-iff-within-latency")
+M("C08", "M8-executes-submitted", (EN, "        self._queue_actions.appendleft(action)\n        action = self._queue_actions.pop()", "        self._queue_actions.appendleft(action)\n        self._queue_actions.pop()"), "S1.executes-removed-action")
+M("C08", "M9-box-null-ones", (SP, "        return self.sample() * 0.", "        return self.sample() * 1."), "S3.null-action-member")
+M("C08", "M10-policy-touches-queue", (EN, "        self._visits[self.now()] += 1\n", "        self._visits[self.now()] += 1\n        if self._done:\n            self._queue_actions.clear()\n"), "S1")
+M("C08", "M11-prefill-sample", (EN, "[self.action_space.null_action() for _ in range(self._steps_delay)]", "[self.action_space.sample() for _ in range(self._steps_delay)]"), "S1.prefill-null-actions")
+E("C08", "E1-append-popleft", (EN, "        self._queue_actions.appendleft(action)\n        action = self._queue_actions.pop()", "        self._queue_actions.append(action)\n        action = self._queue_actions.popleft()"))
+E("C08", "E2-prefill-mult", (EN, "            [self.action_space.null_action() for _ in range(self._steps_delay)],\n            maxlen=self._steps_delay + 1,", "            [self.action_space.null_action() for _ in range(self._steps_delay)],\n            maxlen=1 + self._steps_delay,"))
+
+# ------------------------------------------------------------------ C15
+M("C15", "M1-upper-strict", (TM, "        steps = steps[steps <= end_date]", "        steps = steps[steps < end_date]"), "S1")
+M("C15", "M2-starts-off-by-one", (TM, "            start_dates = steps[: -(episode_length - 1)]", "            start_dates = steps[: -episode_length]"), "S2.candidate-starts")
+M("C15", "M3-window-too-long", (TM, "            end_date_idx = start_date_idx + episode_length - 1", "            end_date_idx = start_date_idx + episode_length"), "S2.window-length")
+M("C15", "M4-test-end-off", (TM, "            test_end=train_start + train_size + test_size - 1,", "            test_end=train_start + train_size + test_size,"), "S5.test-window-size")
+M("C15", "M5-stride-off", (TM, "        train_start = count[: -train_size - test_size + 1 : test_size]", "        train_start = count[: -train_size - test_size + 1 : test_size - 1]"), "S5.stride-is-test-size")
+M("C15", "M6-no-increment", (EN, "        if episode_length:\n            # Adding 1 because there are (episode_length - 1) actions otherwise.\n            episode_length += 1\n", ""), "S3.n-decisions-n-plus-1-states")
+M("C15", "M7-lower-strict", (TM, "        steps = steps[start_date <= steps]", "        steps = steps[start_date < steps]"), "S1")
+M("C15", "M8-draw-first-half", (TM, "            start_date_idx = np.random.choice(range(len(start_dates)), p=p)", "            start_date_idx = np.random.choice(range(len(start_dates) // 2 + 1), p=p)"), "S2.start-drawn-over-all-candidates")
+M("C15", "M9-test-overlaps-train", (TM, "            test_start=train_start + train_size,", "            test_start=train_start + train_size - 1,"), "S5")
+M("C15", "M10-done-overwritten", (EN, "        try:\n            self._events_latent, self._events_nonlatent = self._transmitter._next()\n        except StopIteration:\n            self._done = True", "        exhausted = False\n        try:\n            self._events_latent, self._events_nonlatent = self._transmitter._next()\n        except StopIteration:\n            exhausted = True\n        self._done = exhausted"), "S3")
+M("C15", "M11-fold-check-inverted", (TM, "            if end < start:", "            if end > start and False:"), "S1.fold-well-formed")
+M("C15", "M12-unsorted-steps", (TM, "        steps = np.sort(list(timesteps))", "        steps = np.array(list(timesteps))"), "S1.steps-sorted-event-bearing")
+M("C15", "M13-weights-not-normalised", (TM, "                p /= p.sum()\n", ""), "S2.weights-normalised")
+M("C15", "M14-last-fold-overruns", (TM, "        train_start = count[: -train_size - test_size + 1 : test_size]", "        train_start = count[: -train_size + 1 : test_size]"), "S5.last-fold-fits")
+M("C15", "M15-only-nonlatent-steps", (TM, "        timesteps = set(self._partition_nonlatent) | set(self._partition_latent)", "        timesteps = set(self._partition_nonlatent)"), "S1.steps-sorted-event-bearing")
+E("C15", "E1-end-local", (TM, "            end_date_idx = start_date_idx + episode_length - 1", "            last = episode_length - 1\n            end_date_idx = start_date_idx + last"))
+E("C15", "E2-mask-flipped", (TM, "        steps = steps[steps <= end_date]", "        steps = steps[end_date >= steps]"))
